@@ -1,7 +1,7 @@
 (* Prop_C09.v — property theorems for C09, and nothing else: each statement is closed
    by `exact <lemma>` and followed by Print Assumptions. *)
 From Dig Require Import Base Sig State Graph GraphProofs Register Resolve Run Spec Check
-  ErrTable Err ErrTableCheck GoTypes Parse RunRaw P_Parse P_Frame P_Reg P_Keys P_Once P_Term P_Refine.
+  ErrTable Err ErrTableCheck GoTypes Parse RunRaw P_Parse P_Frame P_Reg P_Keys P_Once P_Term P_Refine P_Glue.
 
 (* ---- C09: in every accepted signature single keys carry no group name and
         group keys carry one, so a single key and a group key never coincide ---- *)
@@ -18,7 +18,8 @@ Print Assumptions C09_keys_disjoint_partial.
 (* ---- C09 / C12 registration rules: a Provide is rejected as duplicate exactly
         when a single key of its signature repeats or is already provided in
         the target scope; group keys never conflict; a Decorate is rejected
-        exactly when the scope already decorates one of its keys ---- *)
+        exactly when it returns the same key twice or the scope already
+        decorates one of its keys ---- *)
 Theorem C09_rules_hold : forall cfg b du h, wf_scopes h = true -> hist_kinds_ok h = true ->
   walk (fun r _ o ob => chk_keys_op r o ob) 0 reg0 [] h (map obs_of (run cfg b du h)) = [].
 Proof. exact P_Keys.keys_rules_ok. Qed.
@@ -33,3 +34,24 @@ Theorem C09_prov_up_to_known_findings : forall cfg bt du h,
   c = 112 \/ c = 132 \/ (c = 120 /\ has_opt h = true /\ has_dec h = true).
 Proof. exact P_Refine.prov_refines. Qed.
 Print Assumptions C09_prov_up_to_known_findings.
+
+(* ---- C09, the whole checker (registration rules + provenance): nothing but the
+        recorded known findings ---- *)
+Theorem C09_holds_up_to_known_findings : forall cfg bt du h,
+  wf_scopes h = true -> wf_strict h = true -> P_Once.wf_fns h = true -> cfg_dry cfg = false ->
+  forall i c, In (i, c) (chk_C09 bt h (map obs_of (run cfg (beh_of bt) du h))) ->
+    c = 112 \/ c = 132 \/ (c = 120 /\ has_opt h = true /\ has_dec h = true).
+Proof. exact P_Glue.chk_C09_bound. Qed.
+Print Assumptions C09_holds_up_to_known_findings.
+
+(* ---- the same for every history dig's own parser produces: `raw_only rh` says that
+        each operation of rh is a Scope call or a Provide / Decorate / Invoke of an
+        arbitrary Go value of the grammar (GoTypes) with arbitrary options;
+        `lower_op` parses it (Parse / RunRaw).  No well-formedness premise on keys
+        is left: the parser establishes it (P_Glue.lowered_wf) ---- *)
+Theorem C09_holds_raw : forall cfg bt du rh, raw_only rh ->
+  wf_scopes (map lower_op rh) = true -> P_Once.wf_fns (map lower_op rh) = true -> cfg_dry cfg = false ->
+  forall i c, In (i, c) (chk_C09 bt (map lower_op rh) (map obs_of (run cfg (beh_of bt) du (map lower_op rh)))) ->
+    Bound (map lower_op rh) c.
+Proof. exact P_Glue.C09_raw. Qed.
+Print Assumptions C09_holds_raw.
